@@ -19,11 +19,11 @@ FEATURE_VARIANTS = {"nomt": {"C01", "C02", "C03", "C04", "C05", "C06", "C07", "C
                     "mt-nocw12": {"C12", "C06"}}
 
 
-def pairs(ctx, want_kind=None, need_sv=True):
+def pairs(ctx, want_kind=None, need_sv=True, include_noop=False):
     """Yield (model_item, GenItem) for every corpus item whose target type-checked and expanded. In the thorough tier the
     feature-matrix variants (sylvia built without `mt`, resp. without `cosmwasm_1_2`) are appended for the properties that
     are meaningful there."""
-    yield from _pairs_of(ctx, facts(ctx), want_kind, need_sv, "")
+    yield from _pairs_of(ctx, facts(ctx), want_kind, need_sv, "", include_noop)
     if ctx.tier == "thorough":
         for variant, props in FEATURE_VARIANTS.items():
             if ctx.prop in props:
@@ -34,15 +34,17 @@ def pairs(ctx, want_kind=None, need_sv=True):
                         m.crate_key = variant + "/" + m.crate_key
                         m.crate = variant + "/" + m.crate
                 ctx.tag("feat." + variant)
-                yield from _pairs_of(ctx, fxv, want_kind, need_sv, variant + "/")
+                yield from _pairs_of(ctx, fxv, want_kind, need_sv, variant + "/", include_noop)
 
 
-def _pairs_of(ctx, fx, want_kind, need_sv, prefix):
+def _pairs_of(ctx, fx, want_kind, need_sv, prefix, include_noop=False):
     crate_by_key = {prefix + c["key"]: c for c in fx.crates}
     n = 0
     broken_elsewhere = any((F.target_errors(fx, c) or c.get("expansion_error")) and not c.get("expect_fail") for c in fx.crates)
     for m in fx.items:
         if want_kind and m.kind != want_kind:
+            continue
+        if getattr(m, "noop", False) and not include_noop:
             continue
         c = crate_by_key[m.crate_key]
         if c.get("expect_fail"):
@@ -63,7 +65,7 @@ def _pairs_of(ctx, fx, want_kind, need_sv, prefix):
             # cfg_attr(.., entry_points): the compiler evaluated the cfg before the first probe saw the item
             head = g.probes["src"].split(" impl", 1)[0]
             m.entry_points = "entry_points" in head
-        if need_sv and g.sv is None:
+        if need_sv and g.sv is None and not getattr(m, "noop", False):
             raise CheckError(f"{m.key}: no generated `sv` module found")
         n += 1
         yield m, g
@@ -179,3 +181,19 @@ def corpus_adequacy(ctx, enforce=False):
             ctx.violation("ADEQ.template-coverage", [e["file"], e["fn"], e["index"]], f"{e['file']}:{e['line']} fn {e['fn']}", "every measurable quote! template of the generator is observed in the expansion of some corpus program",
                           f"no corpus program takes this emission branch (literal run: `{e['sample_run']}`)", "corpus adequacy: translation validation is per corpus program, so the corpus must take every emission branch")
     return cov
+
+
+def generated_statics(g):
+    """names of `static` items (and thread_local!/lazy_static! invocations) anywhere inside the code generated for one corpus
+    item: the `sv` module and the `entry_points` module, both emitted entirely by the macros. Generated code lives in generic
+    impls: a `static` there is ONE object shared by every instantiation (and every call), so a value derived from type
+    parameters that is parked in it leaks between instantiations. The generator has no business emitting one; expected: []."""
+    out = []
+    for items in (g.sv, g.entry_points):
+        if not items:
+            continue
+        for n in A.find_all(items, lambda n: isinstance(n, dict) and n.get("k") == "static" and "name" in n and not n.get("x") and not n.get("t")):
+            out.append(n["name"])
+        for n in A.find_all(items, lambda n: isinstance(n, dict) and n.get("k") == "macro" and str(n.get("path", "")).split("::")[-1] in ("thread_local", "lazy_static")):
+            out.append(n["path"] + "!")
+    return out
